@@ -502,6 +502,9 @@ class UTPM(Ring, RawAlgorithmsMixIn):
                 for p in range(P):
                     self.data[d,p,...] *= rhs
         else:
+            if numpy.may_share_memory(self.data, rhs.data):
+                # the convolution below reads coefficients of rhs after self has been overwritten
+                rhs = rhs.clone()
             for d in range(D)[::-1]:
                 for p in range(P):
                     self.data[d,p,...] *= rhs.data[0,p,...]
